@@ -105,12 +105,13 @@ def coq_opt(v):
 def coq_trig(tr):
     f = tr.get("filter")
     return ("{| t_filter := %s; t_depth := %s; t_time := %s; t_size := %s; t_trace_on := %s; t_trace_off := %s; "
-            "t_trace := %s; t_caller := %s; t_loc := %s |}") % (
+            "t_trace := %s; t_caller := %s; t_loc := %s; t_finish := %s |}") % (
         "None" if f is None else ("Some true" if f else "Some false"),
         coq_opt(tr.get("depth")), coq_opt(tr.get("time")), coq_opt(tr.get("size")),
         C.coq_bool(tr.get("trace_on")), C.coq_bool(tr.get("trace_off")), C.coq_bool(tr.get("trace")),
         C.coq_bool(tr.get("caller")),
-        "None" if tr.get("loc") is None else ("Some true" if tr["loc"] else "Some false"))
+        "None" if tr.get("loc") is None else ("Some true" if tr["loc"] else "Some false"),
+        C.coq_bool(tr.get("finish")))
 
 
 def coq_cfg(cfg, sizes):
